@@ -65,7 +65,7 @@ fn report(run: &Run, p: Prof, s: &str) {
 
 pub fn run(run: &Run) {
     run.set_rule(
-        "Generator: (a) every Unicode scalar value c in 8 contexts: alone, after an unmapped prefix of 1,2,3,4 UTF-8 bytes (a, e-acute, \
+        "Generator: (a) every Unicode scalar value c in 10 contexts (two behind 17 and 93 characters of multi-byte padding): alone, after an unmapped prefix of 1,2,3,4 UTF-8 bytes (a, e-acute, \
          euro, U+1D11E), before and after a mapped character (U+FF21, U+FF76) and between two, (b) proptest strings mixing all 226 \
          width-mapped characters, other compatibility characters and general characters; through Rules::width_mapping_rule of both \
          username profiles. Oracle: per-character map built from my own parse of UnicodeData 16.0.0 (<wide>/<narrow> -> single \
@@ -74,15 +74,20 @@ pub fn run(run: &Run) {
     );
     run.assume("wide/narrow mappings taken from /verif/data/ucd16/UnicodeData.txt (pinned copy)");
     let profs = [Prof::UserMapped, Prof::UserPreserved];
-    run.par("all_scalars_in_8_contexts", true, |tid, n, l| {
+    let pad_a = gens::pad(1, 5);
+    let pad_b = gens::pad(5, 7);
+    let (pad_a, pad_b) = (&pad_a, &pad_b);
+    run.par("all_scalars_in_10_contexts", true, |tid, n, l| {
         let mut cp = tid as u32;
         while cp < 0x110000 {
             if let Some(c) = char::from_u32(cp) {
                 if cp % 8192 == 0 && run.stopped() {
                     return;
                 }
-                for t in 0..8 {
+                for t in 0..10 {
                     let s = match t {
+                        8 => format!("{}{c}", pad_a),
+                        9 => format!("{}{c}\u{ff21}", pad_b),
                         0 => format!("{c}"),
                         1 => format!("a{c}"),
                         2 => format!("é{c}"),
@@ -104,15 +109,21 @@ pub fn run(run: &Run) {
             cp += n as u32;
         }
     });
+    super::pipe::stress(run, "alignment_and_runs", &super::pipe::PAYLOADS_USER, &|s, l| {
+        for p in profs {
+            if check(p, s, l).is_err() {
+                report(run, p, s);
+                return false;
+            }
+        }
+        true
+    });
     let mk = || {
         let ch = prop_oneof![35 => gens::pick(&pools().width), 15 => gens::pick(&pools().compat_ff), 25 => gens::pick(&pools().simple),
             15 => gens::pick(&pools().general), 10 => gens::gchar()];
-        (prop_oneof![9 => vec(ch.clone(), 0..=12), 1 => vec(ch, 0..=120)], 0..2usize)
+        (gens::padded(prop_oneof![9 => vec(ch.clone(), 0..=12), 1 => vec(ch, 0..=120)].prop_map(gens::s_of).boxed()), 0..2usize)
     };
-    run.prop("random", run.pick(2_000_000, 60_000_000), mk, |(cs, pi), l| {
-        let s: String = cs.iter().collect();
-        check(profs[*pi], &s, l)
-    });
+    run.prop("random", run.pick(2_000_000, 60_000_000), mk, |(s, pi), l| check(profs[*pi], s, l));
 }
 
 pub fn replay(_run: &Run, case: &Value) -> Check {
